@@ -854,10 +854,10 @@ pub fn run_hdr(c: &HdrCase, info: &mut CaseInfo) -> Result<(), Failure> {
     Ok(())
 }
 
-struct HdrCheck;
+pub struct HdrCheck(pub &'static str);
 impl SubCheck for HdrCheck {
     fn property(&self) -> &'static str {
-        "C11"
+        self.0
     }
     fn name(&self) -> &'static str {
         "hdr"
@@ -1126,7 +1126,7 @@ impl SubCheck for StaleTimerCheck {
 pub fn checks() -> Vec<Box<dyn SubCheck>> {
     vec![
         Box::new(StaleTimerCheck),
-        Box::new(HdrCheck),
+        Box::new(HdrCheck("C11")),
         Box::new(PermCheck),
         Box::new(WrapCheck),
         Box::new(vcore::PropCheck {
